@@ -42,7 +42,7 @@ def run(ctx):
                     dA, df = out
                     form_properties(ctx, tag, inp, dA, df, loc)
                     if N == Ns[0]:
-                        guards(ctx, fabric, regime, perm, I, loc)
+                        guards(ctx, fabric, regime, perm, I, loc, inp)
     n_cases = 2 * (5 * 6 + 1) * len(Ns)
     ctx.floor("C03.skew", n_cases)
     ctx.floor("C03.conserve", n_cases)
@@ -57,7 +57,7 @@ RULES = {
     "meanfield": "df_g == phi·M*·f_g·R_g with R_g - R_h independent of f for all g,h",
     "div-guard": "each division site reachable from derivatives: denominator is a non-zero constant / CRSS cell / positive parameter, or a "
                  "dominating guard excludes zero; an ordering-selected denominator needs 'not all ordering keys zero' to be implied by a dominating guard",
-    "noslip-branch": "the branch taken when no slip can be resolved returns finite zeros (zero rotation, zero energy)",
+    "noslip-branch": "the branch taken when no slip can be resolved returns a rate of the form orientation·S with S skew (zero included) and a constant energy",
 }
 
 
@@ -164,7 +164,43 @@ def form_properties(ctx, tag, inp, dA, df, loc):
     ctx.check("C03.meanfield", tag, meanfield, loc)
 
 
-def guards(ctx, fabric, regime, perm, I, loc):
+def skew_form(dA, Ag):
+    """dA (3x3) == Ag · S with one S for all rows and S + S^T == 0 (S read off as shallow coefficients)."""
+    S_ref = None
+    for p in range(3):
+        S = np.empty((3, 3), dtype=object)
+        for q in range(3):
+            cellv = lift(dA[p, q])
+            for _ in range(3):
+                if not cellv.t or any(a.kind == "sym" and str(a.args[0]).startswith("A[") for a in alg.atoms_of(cellv)):
+                    break
+                cellv, ch = alg.unfold_once(cellv)
+                if not ch:
+                    break
+            recon = ZERO
+            for s_ in range(3):
+                (atom,) = alg.atoms_of(Ag[p, s_])
+                c = shallow_derive(cellv, atom)
+                S[s_, q] = c
+                recon = recon + Ag[p, s_] * c
+            v, info = alg.decide(cellv, recon)
+            if v != "equal":
+                return False, f"cell [{p},{q}] = {short(cellv, 80)} is not the orientation row composed with a spin"
+        if S_ref is None:
+            S_ref = S
+            for a in range(3):
+                for b in range(3):
+                    if alg.decide(S[a, b] + S[b, a], ZERO)[0] != "equal":
+                        return False, f"spin not skew: S[{a},{b}]+S[{b},{a}] = {short(S[a, b] + S[b, a], 80)}"
+        else:
+            for a in range(3):
+                for b in range(3):
+                    if alg.decide(S[a, b], S_ref[a, b])[0] != "equal":
+                        return False, f"row {p} rotates with a different spin than row 0"
+    return True, ""
+
+
+def guards(ctx, fabric, regime, perm, I, loc, inp=None):
     """Judge every division recorded on the interpreted path."""
     tagp = f"{fabric}:{regime}:order={perm}"
     seen = set()
@@ -181,8 +217,16 @@ def guards(ctx, fabric, regime, perm, I, loc):
     for g, out, gloc, fn in I.guards:
         if g.kind == "all" and out[0] == "return":
             v = out[1]
-            okz = isinstance(v, tuple) and all((isinstance(x, np.ndarray) and all(lift(c).is_zero() for c in x.flat)) or (isinstance(x, E) and x.is_zero()) for x in v)
-            ctx.ob("C03.noslip-branch", f"{tagp}:{fn.split('.')[-1]}", okz, f"no-slip branch returns {v!r}"[:200], gloc)
+            okz, why = False, f"no-slip branch returns {v!r}"[:200]
+            if isinstance(v, tuple) and len(v) == 2 and isinstance(v[0], np.ndarray) and v[0].shape == (3, 3):
+                en_ok = isinstance(v[1], E) and (v[1].is_const())
+                if all(lift(c).is_zero() for c in v[0].flat):
+                    okz, why = en_ok, "zero rotation, constant energy" if en_ok else "energy of a grain without slip is not a constant"
+                elif inp is not None:
+                    res = [skew_form(v[0], inp.A[g]) for g in range(inp.N)]
+                    okz = en_ok and any(r[0] for r in res)
+                    why = "orientation composed with a skew spin" if okz else "rate returned for a grain without slip is not its orientation composed with a skew spin: " + res[0][1]
+            ctx.ob("C03.noslip-branch", f"{tagp}:{fn.split('.')[-1]}", okz, why, gloc)
 
 
 def denominators(den):
